@@ -184,6 +184,18 @@ func (e *Effects) scan(record bool) bool {
 						}
 						continue
 					}
+					// the address of package-level storage handed to code outside the module
+					// (sync.Pool.Get/Put, sync.Map.Store, bytes.Buffer.Write, atomic.Add…): the
+					// callee may mutate it. Values merely loaded from a global (a *regexp.Regexp)
+					// are not addresses of package storage and are not flagged here.
+					if f := cc.StaticCallee(); f != nil && !InModule(f) && record {
+						args := cc.Args
+						for _, a := range args {
+							if g := addrOfGlobal(a); g != nil && !readOnlyExternal[FuncName(f)] {
+								e.Writes = append(e.Writes, GlobalWrite{fn, x.Pos(), g, "address passed to " + FuncName(f) + ", which may mutate it"})
+							}
+						}
+					}
 					for _, cal := range e.p.Callees(x) {
 						wp := e.WritesParam[cal]
 						if len(wp) == 0 {
@@ -260,4 +272,31 @@ func (e *Effects) WritesThrough(fn *ssa.Function, idx int) []string {
 		}
 	}
 	return out
+}
+
+// readOnlyExternal lists external functions known not to mutate a receiver/argument
+// whose address is taken from package-level storage.
+var readOnlyExternal = map[string]bool{
+	"sync.(*Once).Do": false,
+}
+
+// addrOfGlobal: v is the address of a module package-level variable or of a
+// field/element inside it (no load in between).
+func addrOfGlobal(v ssa.Value) *ssa.Global {
+	for i := 0; i < 6; i++ {
+		switch x := v.(type) {
+		case *ssa.Global:
+			if x.Pkg != nil && strings.HasPrefix(x.Pkg.Pkg.Path(), ModPath) {
+				return x
+			}
+			return nil
+		case *ssa.FieldAddr:
+			v = x.X
+		case *ssa.IndexAddr:
+			v = x.X
+		default:
+			return nil
+		}
+	}
+	return nil
 }
